@@ -586,6 +586,53 @@ class ExcelFormula:
             self._ast = self._build_ast(self.rpn)
         return self._ast
 
+    @classmethod
+    def _static_reference(cls, tokens, idx, spans):
+        """Work out what a reference expression in the python code refers to
+
+        The expression is built from `_REF_()` calls, parentheses, the range
+        operator (`**`) and the intersection operator (`&`)
+
+        :param tokens: tokens of the python code
+        :param idx: index of the first token of the expression
+        :param spans: list to add the result of every range operator to
+        :return: address, index of the first token behind the expression
+        """
+        def term(i):
+            if tokens[i].string == '(':
+                addr, i = intersection(i + 1)
+                if tokens[i].string == ')':
+                    return addr, i + 1
+            elif tokens[i].string == '_REF_' and tokens[i + 1].string == '(':
+                if tokens[i + 3].string == ')':
+                    return AddressRange(tokens[i + 2].string[1:-1]), i + 4
+                if (tokens[i + 2].string, tokens[i + 3].string) == ('str', '('):
+                    addr, i = intersection(i + 4)
+                    if (tokens[i].string, tokens[i + 1].string) == (')', ')'):
+                        return addr, i + 2
+            raise ValueError
+
+        def span(i):
+            left, i = term(i)
+            if tokens[i].string == '**':
+                right, i = span(i + 1)
+                left = left ** right
+                if not is_address(left):
+                    raise ValueError
+                spans.append(left)
+            return left, i
+
+        def intersection(i):
+            left, i = span(i)
+            while tokens[i].string == '&':
+                right, i = span(i + 1)
+                left = left & right
+                if not is_address(left):
+                    raise ValueError
+            return left, i
+
+        return intersection(idx)
+
     @property
     def needed_addresses(self):
         """Return the addresses and address ranges this formula needs"""
@@ -594,29 +641,23 @@ class ExcelFormula:
             if self.python_code:
                 code = iter((self.python_code.encode(),))
                 tokens = tuple(tk.tokenize(lambda: next(code)))
-                addrs = []
+                addrs, spans = [], []
                 for i, t in enumerate(tokens):
                     if t.type == 1 and t.string in ADDR_FUNCS_NAMES and (
                             tokens[i + 1].string == '(' and
                             tokens[i + 3].string == ')'):
                         addrs.append(AddressRange(tokens[i + 2].string[1:-1]))
 
-                        # a range operator between two written references
-                        # reads all of the range that spans both of them
-                        j = i - 1
-                        while j > 0 and tokens[j].string == '(':
-                            j -= 1
-                        if t.string == '_REF_' and tokens[j].string == '**':
-                            j -= 1
-                            while j > 0 and tokens[j].string == ')':
-                                j -= 1
-                            if (j >= 2 and tokens[j - 1].string == '(' and
-                                    tokens[j - 2].string == '_REF_'):
-                                union = AddressRange(
-                                    tokens[j].string[1:-1]) ** addrs[-1]
-                                if is_address(union):  # pragma: no branch
-                                    addrs.append(union)
-                self._needed_addresses = uniqueify(addrs)
+                    elif t.string == '_R_' and tuple(
+                            tok.string for tok in tokens[i + 1:i + 4]
+                    ) == ('(', 'str', '('):
+                        # range operators between written references read all
+                        # of the range that spans them, at run time
+                        try:
+                            self._static_reference(tokens, i + 4, spans)
+                        except (ValueError, IndexError):  # pragma: no cover
+                            pass
+                self._needed_addresses = uniqueify(addrs + spans)
             else:
                 self._needed_addresses = ()
 
